@@ -135,7 +135,7 @@ func c02Suffix(key string) string {
 // HarnessC02Filter: authenticated user + client-supplied headers of the Impersonate-* family -> impersonation filter ->
 // impersonating transport wrapper. What is forwarded carries exactly the effective identity and no client-supplied
 // Impersonate-* header; denied / malformed impersonation is answered by the gateway.
-// verif:bounds authenticated user name 1..3 bytes, <= 1 group; client headers: optional Impersonate-User (<= 3 bytes), optional Impersonate-Group (1 value), optional Impersonate-Extra-<k> (k 1..2 lower-case letters, 1 value), optional Impersonate-<Word> with an arbitrary canonical one-word suffix (covers Uid), optional unrelated header; every authorizer answer symbolic
+// verif:bounds authenticated user name 1..3 bytes, <= 1 group; client headers: optional Impersonate-User (<= 3 bytes), optional Impersonate-Group (1 value), optional Impersonate-Extra-<k> (k 1..2 lower-case letters, 1 value) and a second Impersonate-Extra-<k2> (k2 one other letter), optional Impersonate-<Word> with an arbitrary canonical one-word suffix (covers Uid), optional unrelated header; every authorizer answer symbolic
 func HarnessC02Filter() {
 	ghostC02Forwarded, ghostC02AuthCalls, ghostC02AllAllow = 0, 0, true
 	ghostC02Out, ghostC02OutUser = nil, nil
@@ -165,6 +165,15 @@ func HarnessC02Filter() {
 		extraVal = nondetStringN("h.extra.value", 2)
 		// canonical form: first letter of the key part upper-case
 		hdr["Impersonate-Extra-"+string([]byte{extraKey[0] - 32})+extraKey[1:]] = []string{extraVal}
+	}
+	// a second extra key, different from the first, possibly with the same value
+	hasExtra2 := hasExtra && nondetBool("h.extra2")
+	var extraKey2, extraVal2 string
+	if hasExtra2 {
+		extraKey2 = nondetStringN("h.extra2.key", 1)
+		vassume(len(extraKey2) == 1 && extraKey2[0] >= 'a' && extraKey2[0] <= 'z' && extraKey2 != extraKey)
+		extraVal2 = nondetStringN("h.extra2.value", 2)
+		hdr["Impersonate-Extra-"+string([]byte{extraKey2[0] - 32})] = []string{extraVal2}
 	}
 	if hasOther {
 		otherKey = "Impersonate-" + c02Suffix("h.other.suffix")
@@ -200,7 +209,18 @@ func HarnessC02Filter() {
 		vassert(u != nil, "C02/forwarded-without-identity")
 		if u != nil {
 			if impersonating {
-				vassert(ghostC02AuthCalls >= 1, "C02/impersonated-without-asking-authorizer")
+				// every requested user / group / extra value is put to the authorizer, one question each
+				asked := 1
+				if hasGroup {
+					asked++
+				}
+				if hasExtra {
+					asked++
+				}
+				if hasExtra2 {
+					asked++
+				}
+				vassert(ghostC02AuthCalls == asked, "C02/impersonation-request-not-put-to-the-authorizer")
 			} else {
 				vassert(u.GetName() == authName, "C02/identity-changed-without-impersonation")
 			}
